@@ -18,7 +18,8 @@ FUNCTIONS = sorted(set(c02.FUNCTIONS + c03.FUNCTIONS + c07.FUNCTIONS + c08.FUNCT
 BOUNDS = {
     "quick": "the detector runs of C02, C03, C07, C08, C09 and C17 at their quick bounds (n<=5..9 depending on the "
              "detector, p in {1,2}), every path",
-    "thorough": "the same runs at the thorough bounds",
+    "thorough": "the runs of C02, C03, C08, C17 at their thorough bounds; seeded / circular binary segmentation at the quick bounds "
+                "plus the m >= 2 part of their thorough grids",
 }
 STUBS = ["table scorers (free reals per cut and column)", "MVCAPA user penalty callables",
          "C17 part: stub change detector returning an arbitrary admissible changepoint list"]
@@ -33,8 +34,14 @@ def jobs(tier):
     out = []
     out += c02.jobs(tier, mode="c04")
     out += [j for j in c08.jobs(tier, mode="c04")]
-    out += [j for j in c07.jobs(tier, mode="c04") if j.maker == "make_sbs"]
-    out += c09.jobs(tier, mode="c04")
+    # seeded / circular binary segmentation: the thorough grids of C07 / C09 contain single jobs of 10^5 paths whose
+    # outputs repeat those of the smaller sizes; the well-formedness check uses their quick grids plus the m >= 2 part
+    sbs = {j.label: j for j in c07.jobs("quick", mode="c04") if j.maker == "make_sbs"}
+    cbs = {j.label: j for j in c09.jobs("quick", mode="c04")}
+    if tier == "thorough":
+        sbs.update({j.label: j for j in c07.jobs("thorough", mode="c04") if j.maker == "make_sbs" and j.cfg["m"] >= 2})
+        cbs.update({j.label: j for j in c09.jobs("thorough", mode="c04") if j.cfg["m"] >= 2})
+    out += list(sbs.values()) + list(cbs.values())
     out += c03.jobs(tier, mode="c04")
     try:
         from . import c17
